@@ -134,6 +134,10 @@ func (c *Compactor) Compact() (*CompactionResult, error) {
 
 	// Create temp file for new data (always V3 format with name in header area)
 	tempPath := c.filePath + ".compact"
+	// Always remove any leftover temp from a previous crashed compaction:
+	// NewFileWriterWithName would otherwise open it for appending.
+	verifhook.FileOp("remove", nil, tempPath, nil)
+	_ = os.Remove(tempPath)
 	writer, err := NewFileWriterWithName(tempPath, c.maxBlockSize, swampName)
 	if err != nil {
 		result.Error = err
